@@ -430,7 +430,8 @@ class ConsInterp(Interp):
                 v = self.repo.fold_global(self.module, n.id)
                 return [(('global', n.id, v if not isinstance(v, (dict, list, set)) else None), st)]
             except Unfoldable:
-                return [(('other',), st)]
+                # a module-level object the folder cannot evaluate: still not something read from the cursor
+                return [(('global', n.id, None), st)]
         if n.id in ('None', 'True', 'False'):
             return [(('const', {'None': None, 'True': True, 'False': False}[n.id]), st)]
         return [(('builtin', n.id), st)]
@@ -1268,7 +1269,7 @@ class ConsInterp(Interp):
             return ('const', None)
         if t == 'param':
             return ('param', v[1])
-        if t == 'int':
+        if t in ('int', 'global', 'class', 'classval', 'closure', 'builtin', 'pos', 'cquery'):
             return ('const', None)
         return ('owned', 0, INF, None) if t in ('other',) else ('const', None)
 
